@@ -29,6 +29,7 @@ const preludeCore = `
 (define-fun gdiv ((a Int) (b Int)) Int (ite (>= a 0) (ite (> b 0) (div a b) (- (div a (- b)))) (ite (> b 0) (- (div (- a) b)) (div (- a) (- b)))))
 (define-fun gmod ((a Int) (b Int)) Int (- a (* b (gdiv a b))))
 (declare-fun itag (Int) Int)
+(declare-fun umod (Int Int) Int)
 (declare-fun irow (Int Int Int) Int)
 (declare-fun irow_tag (Int) Int)
 (declare-fun irow_ref (Int) Int)
@@ -85,7 +86,209 @@ var solverBins = map[string][]string{
 	"cvc5":   {"cvc5", "--lang=smt2", "--incremental"},
 }
 
-func buildSMT(o *Obligation, withModel bool) string {
+// symbolsOf lists the declared symbols occurring in a formula.
+func (e *Enc) symbolsOf(f string) []string {
+	var out []string
+	i := 0
+	n := len(f)
+	for i < n {
+		c := f[i]
+		switch {
+		case c == '|':
+			j := i + 1
+			for j < n && f[j] != '|' {
+				j++
+			}
+			tok := f[i:min(j+1, n)]
+			if e.declSet[tok] {
+				out = append(out, tok)
+			}
+			i = j + 1
+		case c == '(' || c == ')' || c == ' ' || c == '\n' || c == '\t':
+			i++
+		default:
+			j := i
+			for j < n && f[j] != '(' && f[j] != ')' && f[j] != ' ' && f[j] != '\n' && f[j] != '|' {
+				j++
+			}
+			tok := f[i:j]
+			if e.declSet[tok] {
+				out = append(out, tok)
+			}
+			i = j
+		}
+	}
+	return out
+}
+
+type assertInfo struct {
+	syms    []string
+	defines string // non-empty for (= NAME term) with NAME a declared constant
+}
+
+func (e *Enc) assertInfos() []assertInfo {
+	for len(e.ainfo) < len(e.asserts) {
+		a := e.asserts[len(e.ainfo)]
+		info := assertInfo{syms: e.symbolsOf(a)}
+		if strings.HasPrefix(a, "(= ") {
+			rest := a[3:]
+			k := strings.IndexByte(rest, ' ')
+			if strings.HasPrefix(rest, "|") {
+				k = strings.IndexByte(rest[1:], '|') + 2
+			}
+			if k > 0 && k < len(rest) {
+				name := rest[:k]
+				if e.declSet[name] && !strings.HasPrefix(name, "(") && e.isConstDecl[name] {
+					info.defines = name
+				}
+			}
+		}
+		e.ainfo = append(e.ainfo, info)
+	}
+	return e.ainfo
+}
+
+func isControlSym(s string) bool {
+	return strings.HasPrefix(s, "pc!") || strings.HasPrefix(s, "e!")
+}
+
+// sliceAsserts selects the assumptions in the cone of influence of the goal.
+// Dropping assumptions can only make an obligation harder to prove, never unsound.
+// sliceStrict: backward closure over definitions from the goal, then only those
+// assumptions that talk exclusively about symbols in that closure (plus at most
+// `slack` other symbols, which then join the closure). Much smaller queries.
+func (e *Enc) sliceStrict(o *Obligation, slack int) []int {
+	infos := e.assertInfos()
+	relevant := map[string]bool{}
+	for _, s := range e.symbolsOf(o.Goal) {
+		relevant[s] = true
+	}
+	included := make([]bool, o.Prefix)
+	defOf := map[string]int{}
+	for i := 0; i < o.Prefix; i++ {
+		if d := infos[i].defines; d != "" {
+			defOf[d] = i
+		}
+	}
+	var closeDefs func()
+	closeDefs = func() {
+		changed := true
+		for changed {
+			changed = false
+			for s := range relevant {
+				if i, ok := defOf[s]; ok && !included[i] {
+					included[i] = true
+					changed = true
+					for _, t := range infos[i].syms {
+						relevant[t] = true
+					}
+				}
+			}
+		}
+	}
+	closeDefs()
+	for round := 0; round < 4; round++ {
+		added := false
+		for i := 0; i < o.Prefix; i++ {
+			if included[i] || infos[i].defines != "" {
+				continue
+			}
+			extra := 0
+			hit := false
+			for _, s := range infos[i].syms {
+				if relevant[s] {
+					if !isControlSym(s) {
+						hit = true
+					}
+				} else if !isControlSym(s) {
+					extra++
+				}
+			}
+			if len(infos[i].syms) == 0 || (hit && extra <= slack) {
+				included[i] = true
+				added = true
+				for _, s := range infos[i].syms {
+					relevant[s] = true
+				}
+			}
+		}
+		closeDefs()
+		if !added {
+			break
+		}
+	}
+	var idx []int
+	for i, b := range included {
+		if b {
+			idx = append(idx, i)
+		}
+	}
+	return idx
+}
+
+func (e *Enc) sliceAsserts(o *Obligation) []int {
+	infos := e.assertInfos()
+	relevant := map[string]bool{}
+	for _, s := range e.symbolsOf(o.Goal) {
+		relevant[s] = true
+	}
+	included := make([]bool, o.Prefix)
+	changed := true
+	for changed {
+		changed = false
+		for i := 0; i < o.Prefix; i++ {
+			if included[i] {
+				continue
+			}
+			in := false
+			if d := infos[i].defines; d != "" {
+				in = relevant[d]
+			} else {
+				nonCtl := 0
+				for _, s := range infos[i].syms {
+					if isControlSym(s) {
+						continue
+					}
+					nonCtl++
+					if relevant[s] {
+						in = true
+						break
+					}
+				}
+				if nonCtl == 0 {
+					for _, s := range infos[i].syms {
+						if relevant[s] {
+							in = true
+							break
+						}
+					}
+					if len(infos[i].syms) == 0 {
+						in = true
+					}
+				}
+			}
+			if in {
+				included[i] = true
+				changed = true
+				for _, s := range infos[i].syms {
+					relevant[s] = true
+				}
+			}
+		}
+	}
+	var idx []int
+	for i, b := range included {
+		if b {
+			idx = append(idx, i)
+		}
+	}
+	return idx
+}
+
+func buildSMT(o *Obligation, withModel bool) string { return buildSMTLevel(o, withModel, 1) }
+
+// level 0: strict slice; 1: inclusive cone of influence; 2: everything
+func buildSMTLevel(o *Obligation, withModel bool, level int) string {
 	e := o.enc
 	var sb strings.Builder
 	if withModel {
@@ -97,10 +300,26 @@ func buildSMT(o *Obligation, withModel bool) string {
 		sb.WriteString(d)
 		sb.WriteByte('\n')
 	}
-	for _, a := range e.asserts[:o.Prefix] {
-		sb.WriteString("(assert ")
-		sb.WriteString(a)
-		sb.WriteString(")\n")
+	if o.Expect == "sat" || os.Getenv("GOVC_NOSLICE") != "" || level >= 2 {
+		for _, a := range e.asserts[:o.Prefix] {
+			sb.WriteString("(assert ")
+			sb.WriteString(a)
+			sb.WriteString(")\n")
+		}
+	} else {
+		e.sliceMu.Lock()
+		var idx []int
+		if level == 0 {
+			idx = e.sliceStrict(o, 1)
+		} else {
+			idx = e.sliceAsserts(o)
+		}
+		e.sliceMu.Unlock()
+		for _, i := range idx {
+			sb.WriteString("(assert ")
+			sb.WriteString(e.asserts[i])
+			sb.WriteString(")\n")
+		}
 	}
 	sb.WriteString("(assert ")
 	sb.WriteString(o.Goal)
@@ -116,8 +335,15 @@ func buildSMT(o *Obligation, withModel bool) string {
 	return sb.String()
 }
 
-func runSolver(ctx context.Context, name, file string, timeout time.Duration, seed int) (string, string, float64) {
+func runSolver(ctx context.Context, cfgName, file string, timeout time.Duration, seed int) (string, string, float64) {
+	name := cfgName
+	var extra []string
+	if i := strings.Index(cfgName, "+"); i >= 0 {
+		name = cfgName[:i]
+		extra = strings.Split(cfgName[i+1:], "+")
+	}
 	args := append([]string{}, solverBins[name][1:]...)
+	args = append(args, extra...)
 	switch name {
 	case "z3", "z3-new":
 		args = append(args, fmt.Sprintf("-T:%d", int(timeout.Seconds())+1), fmt.Sprintf("smt.random_seed=%d", seed), fmt.Sprintf("sat.random_seed=%d", seed))
@@ -164,16 +390,33 @@ func safeFileName(s string) string {
 // Solve discharges one obligation: z3-new first with a short budget, then a race
 // of all three solvers with the full budget.
 func Solve(o *Obligation, cfg SolverCfg) (SolveResult, string) {
-	smt := buildSMT(o, true)
 	fileMu.Lock()
 	fileCounter++
 	n := fileCounter
 	fileMu.Unlock()
+	res := SolveResult{}
+	if o.Expect == "unsat" && os.Getenv("GOVC_NOSLICE") == "" {
+		// stage 0: a small query from the strict slice; only "unsat" is conclusive
+		// (dropping assumptions cannot turn a provable goal into a false "unsat")
+		f0 := filepath.Join(cfg.WorkDir, fmt.Sprintf("%04d_%s.s0.smt2", n, safeFileName(o.Name)))
+		if err := os.WriteFile(f0, []byte(buildSMTLevel(o, false, 0)), 0o644); err == nil {
+			t0 := 3 * time.Second
+			if cfg.Timeout < t0 {
+				t0 = cfg.Timeout
+			}
+			st, _, dt := runSolver(context.Background(), "z3-new", f0, t0, cfg.Seed)
+			res.Tried = append(res.Tried, fmt.Sprintf("z3-new/strict:%s:%.2fs", st, dt))
+			if st == "unsat" {
+				res.Status, res.Solver, res.Seconds = st, "z3-new", dt
+				return res, f0
+			}
+		}
+	}
+	smt := buildSMT(o, true)
 	file := filepath.Join(cfg.WorkDir, fmt.Sprintf("%04d_%s.smt2", n, safeFileName(o.Name)))
 	if err := os.WriteFile(file, []byte(smt), 0o644); err != nil {
 		return SolveResult{Status: "error", Output: err.Error()}, file
 	}
-	res := SolveResult{}
 	quickT := 4 * time.Second
 	if cfg.Timeout < quickT {
 		quickT = cfg.Timeout
@@ -187,49 +430,127 @@ func Solve(o *Obligation, cfg SolverCfg) (SolveResult, string) {
 	if st == "error" {
 		res.Output = out
 	}
-	// race
+	res.Status = st
+	res.Seconds = dt
+	if res.Output == "" {
+		res.Output = out
+	}
+	return res, file
+}
+
+// stripSpecPatterns removes the explicit triggers govc attached to quantifiers that
+// come from specifications (tagged :qid govcspec), leaving trigger selection to the
+// solver. Both variants are tried: neither dominates.
+func stripSpecPatterns(smt string) string {
+	const tag = " :qid govcspec)"
+	for {
+		k := strings.Index(smt, tag)
+		if k < 0 {
+			return smt
+		}
+		end := k + len(tag) - 1 // index of the closing paren of (! ...)
+		// find the matching "(!" by walking back with paren balance
+		depth := 0
+		start := -1
+		for i := end; i >= 0; i-- {
+			if smt[i] == ')' {
+				depth++
+			} else if smt[i] == '(' {
+				depth--
+				if depth == 0 {
+					start = i
+					break
+				}
+			}
+		}
+		if start < 0 || !strings.HasPrefix(smt[start:], "(! ") {
+			// cannot parse: drop just the tag to terminate
+			smt = smt[:k] + ")" + smt[k+len(tag):]
+			continue
+		}
+		bodyStart := start + 3
+		bodyEnd := sexprEnd(smt, bodyStart)
+		if bodyEnd < 0 || bodyEnd > end {
+			smt = smt[:k] + ")" + smt[k+len(tag):]
+			continue
+		}
+		smt = smt[:start] + smt[bodyStart:bodyEnd] + smt[end+1:]
+	}
+}
+
+// Portfolio runs many solver configurations on the strict and the inclusive slice of
+// an obligation in parallel; the first conclusive answer wins ("sat" only counts on
+// the inclusive slice, where no needed assumption can be missing... and even there it
+// is only reported, never trusted without replay).
+func Portfolio(o *Obligation, cfg SolverCfg) (SolveResult, string) {
+	fileMu.Lock()
+	fileCounter++
+	n := fileCounter
+	fileMu.Unlock()
+	base := filepath.Join(cfg.WorkDir, fmt.Sprintf("%04d_%s.pf", n, safeFileName(o.Name)))
+	full, strict := base+".smt2", base+".s0.smt2"
+	fullNP, strictNP := base+".np.smt2", base+".s0.np.smt2"
+	sFull, sStrict := buildSMTLevel(o, true, 1), buildSMTLevel(o, false, 0)
+	os.WriteFile(full, []byte(sFull), 0o644)
+	os.WriteFile(strict, []byte(sStrict), 0o644)
+	os.WriteFile(fullNP, []byte(stripSpecPatterns(sFull)), 0o644)
+	os.WriteFile(strictNP, []byte(stripSpecPatterns(sStrict)), 0o644)
+	type job struct {
+		cfg, file string
+		strict    bool
+		seed      int
+	}
+	var jobs []job
+	for _, f := range []struct {
+		file   string
+		strict bool
+	}{{full, false}, {strict, true}, {fullNP, false}, {strictNP, true}} {
+		jobs = append(jobs,
+			job{"z3-new", f.file, f.strict, cfg.Seed},
+			job{"z3", f.file, f.strict, cfg.Seed},
+			job{"cvc5+--enum-inst", f.file, f.strict, cfg.Seed},
+		)
+	}
+	jobs = append(jobs,
+		job{"z3-new", full, false, cfg.Seed + 7},
+		job{"z3-new+smt.arith.solver=2", fullNP, false, cfg.Seed + 1},
+		job{"z3", fullNP, false, cfg.Seed + 3},
+		job{"cvc5", fullNP, false, cfg.Seed},
+	)
 	type rr struct {
-		name, st, out string
-		dt            float64
+		j   job
+		st  string
+		out string
+		dt  float64
 	}
 	ctx, cancel := context.WithCancel(context.Background())
 	defer cancel()
-	ch := make(chan rr, 3)
-	names := []string{"cvc5", "z3", "z3-new"}
-	for _, nm := range names {
-		go func(nm string) {
-			s, o2, d := runSolver(ctx, nm, file, cfg.Timeout, cfg.Seed)
-			ch <- rr{nm, s, o2, d}
-		}(nm)
+	ch := make(chan rr, len(jobs))
+	for _, j := range jobs {
+		go func(j job) {
+			st, out, dt := runSolver(ctx, j.cfg, j.file, cfg.Timeout, j.seed)
+			ch <- rr{j, st, out, dt}
+		}(j)
 	}
-	best := rr{st: "unknown"}
-	for range names {
+	res := SolveResult{Status: "timeout"}
+	for range jobs {
 		r := <-ch
-		res.Tried = append(res.Tried, fmt.Sprintf("%s:%s:%.2fs", r.name, r.st, r.dt))
-		if r.st == "unsat" || r.st == "sat" {
-			res.Status, res.Solver, res.Seconds, res.Output = r.st, r.name, r.dt+dt, r.out
+		tag := r.j.cfg
+		if r.j.strict {
+			tag += "/strict"
+		}
+		res.Tried = append(res.Tried, fmt.Sprintf("%s:%s:%.1fs", tag, r.st, r.dt))
+		if r.st == "unsat" || (r.st == "sat" && !r.j.strict) {
+			res.Status, res.Solver, res.Seconds, res.Output = r.st, tag, r.dt, r.out
 			cancel()
-			return res, file
+			return res, r.j.file
 		}
-		if r.st == "error" && res.Output == "" {
-			res.Output = r.name + ": " + r.out
-		}
-		if best.st == "unknown" && r.st == "timeout" {
-			best = r
-		}
-		if r.st == "unknown" && best.st != "timeout" {
-			best = r
+		if r.st == "unknown" && res.Status == "timeout" {
+			res.Status = "unknown"
 		}
 	}
-	res.Status = best.st
-	if res.Status == "" {
-		res.Status = "unknown"
-	}
-	res.Seconds = dt + cfg.Timeout.Seconds()
-	if res.Output == "" {
-		res.Output = best.out
-	}
-	return res, file
+	res.Seconds = cfg.Timeout.Seconds()
+	return res, full
 }
 
 // parseGetValue extracts ((term value) ...) pairs from solver output.
